@@ -1,7 +1,7 @@
 (* Unfolding equations for the MiniPy interpreter, Z/N transport of the bit operations, loop induction. *)
-From Coq Require Import ZArith NArith List String Lia.
+From Coq Require Import ZArith NArith List String Ascii Lia.
 From Coq.Strings Require Import Byte.
-From PyRtcm Require Import Base.Bytes Src.MiniPy.
+From PyRtcm Require Import Base.Bytes Base.Dec Src.MiniPy.
 Import ListNotations.
 Open Scope Z_scope.
 
@@ -25,13 +25,35 @@ Section Eqs.
   Lemma exec_if c th el s :
     exec C (SIf c th el) s =
       match eval C c s with
-      | POk (PInt z) => if z =? 0 then exec_list C el s else exec_list C th s
-      | POk (PBytes b) => match b with [] => exec_list C el s | _ => exec_list C th s end
-      | POk PUnbound => PErr (PyType "truth") | PErr e => PErr e
+      | POk v => match truth v with POk true => exec_list C th s | POk false => exec_list C el s | PErr e => PErr e end
+      | PErr e => PErr e
       end.
   Proof. reflexivity. Qed.
   Lemma exec_return e s :
     exec C (SReturn e) s = match eval C e s with POk v => POk (FRet v) | PErr e => PErr e end.
+  Proof. reflexivity. Qed.
+
+  (* expressions *)
+  Lemma eval_int z s : eval C (EInt z) s = POk (PInt z).
+  Proof. reflexivity. Qed.
+  Lemma eval_var x s : eval C (EVar x) s = match lookup x s with Some PUnbound | None => PErr (PyUnbound x) | Some v => POk v end.
+  Proof. reflexivity. Qed.
+  Lemma eval_bin o a b s : eval C (EBin o a b) s = bind2 (eval C a s) (eval C b s) (binop_val o).
+  Proof. reflexivity. Qed.
+  Lemma eval_call f a s :
+    eval C (ECall f a) s = match C f with None => PErr (PyNoFunc f) | Some g => match eval C a s with POk v => g v | PErr e => PErr e end end.
+  Proof. reflexivity. Qed.
+  Lemma eval_bytes bs s : eval C (EBytes bs) s = POk (PBytes bs).
+  Proof. reflexivity. Qed.
+  Lemma eval_cmpeq a b s : eval C (ECmpEq a b) s = bind2 (eval C a s) (eval C b s) eq_val.
+  Proof. reflexivity. Qed.
+  Lemma eval_strof a s : eval C (EStrOf a) s = match eval C a s with POk v => str_val v | PErr e => PErr e end.
+  Proof. reflexivity. Qed.
+  Lemma eval_fmt03d a s : eval C (EFmt03d a) s = match eval C a s with POk v => fmt03d_val v | PErr e => PErr e end.
+  Proof. reflexivity. Qed.
+  Lemma eval_strlit t s : eval C (EStrLit t) s = POk (PStr t).
+  Proof. reflexivity. Qed.
+  Lemma eval_strcat a b s : eval C (EStrCat a b) s = bind2 (eval C a s) (eval C b s) strcat_val.
   Proof. reflexivity. Qed.
 
   (* a loop whose body maps states of a given shape to states of that shape *)
@@ -66,4 +88,42 @@ Lemma fold_const (A B:Type) (f:A->A) (l:list B) a : fold_left (fun x _ => f x) l
 Proof.
   revert a. induction l as [|b r IH]; intro a; [reflexivity|].
   cbn [fold_left List.length]. rewrite IH. change (Nat.iter (S (List.length r)) f a) with (f (Nat.iter (List.length r) f a)). apply iter_swap.
+Qed.
+
+(* linking *)
+Lemma link_here n f r : link ((n,f)::r) n = Some (call (link r) f).
+Proof. cbn [link]. now rewrite String.eqb_refl. Qed.
+Lemma link_skip n f r g : String.eqb g n = false -> link ((n,f)::r) g = link r g.
+Proof. intro H. cbn [link]. now rewrite H. Qed.
+
+(* more Z/N transport *)
+Lemma of_N_shiftr a n : Z.shiftr (Z.of_N a) (Z.of_N n) = Z.of_N (N.shiftr a n).
+Proof.
+  rewrite Z.shiftr_div_pow2 by lia. rewrite N.shiftr_div_pow2.
+  rewrite N2Z.inj_div, N2Z.inj_pow. reflexivity.
+Qed.
+Lemma of_N_eqb a b : (Z.of_N a =? Z.of_N b) = N.eqb a b.
+Proof.
+  destruct (N.eqb_spec a b) as [->|NE]; [apply Z.eqb_refl|].
+  apply Z.eqb_neq. intro H. apply NE. now apply N2Z.inj.
+Qed.
+
+(* int -> text on non-negative ints below the digit limit *)
+Lemma str_of_Z_of_N n : str_of_Z (Z.of_N n) = str_of_N n.
+Proof. destruct n; reflexivity. Qed.
+Lemma small_below_limit : 4096 <= int_str_limit.
+Proof. vm_compute. discriminate. Qed.
+Lemma str_int_of_N n : (n < 4096)%N -> str_int (Z.of_N n) = POk (str_of_N n).
+Proof.
+  intro H. unfold str_int.
+  replace (Z.abs (Z.of_N n) <? int_str_limit) with true.
+  - now rewrite str_of_Z_of_N.
+  - symmetry. apply Z.ltb_lt. pose proof small_below_limit. rewrite Z.abs_eq by lia. lia.
+Qed.
+Lemma fmt03d_int_of_N n : (n < 4096)%N -> fmt03d_int (Z.of_N n) = POk (ddd n).
+Proof.
+  intro H. unfold fmt03d_int.
+  replace (Z.abs (Z.of_N n) <? int_str_limit) with true.
+  - destruct n; reflexivity.
+  - symmetry. apply Z.ltb_lt. pose proof small_below_limit. rewrite Z.abs_eq by lia. lia.
 Qed.
